@@ -1,7 +1,7 @@
 /-
 Property theorems for RobotWarehouse (R model: the resampled request ids are a draw `d`; every
 theorem holds for ALL draws).  Proofs in Env/RobotWarehouse/{Lemmas,PictureLemmas,MaskLemmas,StepLemmas,
-QueueLemmas,ConsistentLemmas,NoopLemmas,ObsLemmas,ShelfLemmas,RewardLemmas,ResetLemmas}.lean.
+QueueLemmas,ConsistentLemmas,NoopLemmas,ObsLemmas,ShelfLemmas,RewardLemmas,ResetLemmas,EpisodeLemmas}.lean.
 -/
 import JumanjiModel.Env.RobotWarehouse.Lemmas
 import JumanjiModel.Env.RobotWarehouse.Bounds
@@ -12,16 +12,10 @@ import JumanjiModel.Env.RobotWarehouse.ObsLemmas
 import JumanjiModel.Env.RobotWarehouse.ShelfLemmas
 import JumanjiModel.Env.RobotWarehouse.RewardLemmas
 import JumanjiModel.Env.RobotWarehouse.ResetLemmas
+import JumanjiModel.Env.RobotWarehouse.EpisodeLemmas
 open Jm RobotWarehouse
 
 namespace Props.C04
-/-- the environment's own reaction: an action whose (cached) mask bit is off is replaced by the
-no-op, every other action is played as given — per agent -/
-theorem rware_step_agrees (row : List Bool) (rows : List (List Bool)) (a : Int) (as : List Int) :
-    validActions (row :: rows) (a :: as) =
-      (if Jx.getWC row false a then a else 0) :: validActions rows as :=
-  RobotWarehouse.validActions_cons row rows a as
-
 /-- a 1×3 floor: the agent (facing right, carrying shelf 1, on a non-highway cell) has shelf 2 in front -/
 def rwareWit : State :=
   { shelfGrid := [[1, 2, 0]], agentGrid := [[1, 0, 0]], agents := [⟨0, 0, 1, true⟩],
@@ -51,6 +45,28 @@ theorem rware_cached_mask_iff_legal (cfg : Cfg) (s : State) (hc : Consistent cfg
   rw [((consistent_iff_good cfg s).1 hc).mask]
   exact RobotWarehouse.mask_iff_legal hc hi ha
 
+/-- C04 (the environment's own reaction agrees with the rules; all consistent states, all joint actions, every
+agent): the action `step` actually executes for agent `i` (`get_valid_actions` applied to the cached mask; this
+list is what the per-agent scan of `step` consumes) is the in-spec action `a` the agent submitted if the RULES
+(`legal`, read from the entity tables) allow it, and the no-op otherwise -/
+theorem rware_step_agrees (cfg : Cfg) (s : State) (hc : Consistent cfg s) (actions : List Int) (i a : Nat)
+    (hi : i < s.agents.length) (ha : actions[i]? = some (a : Int)) (ha5 : a < 5) :
+    (validActions s.mask actions)[i]? = some (if legal s i a then (a : Int) else 0) :=
+  RobotWarehouse.validActions_legal hc actions hi ha ha5
+
+/-- … so the WHOLE step in which agent `i` submits an action that is illegal by the rules is the step in which it
+submits the no-op instead (same successor state, same timestep) -/
+theorem rware_illegal_step_eq_noop (cfg : Cfg) (s : State) (hc : Consistent cfg s) (actions draws : List Int)
+    (i a : Nat) (hi : i < s.agents.length) (ha : actions[i]? = some (a : Int)) (ha5 : a < 5)
+    (hill : ¬ legal s i a) :
+    step cfg s actions draws = step cfg s (actions.set i 0) draws :=
+  RobotWarehouse.step_illegal_eq_noop hc actions draws hi ha ha5 hill
+
+/-- the hypotheses are satisfiable, and both branches occur: on the witness FORWARD (illegal) is played as the
+no-op, TOGGLE_LOAD (legal) as itself -/
+example : Consistent rwareWitCfg rwareWit ∧ ¬ legal rwareWit 0 1 ∧ legal rwareWit 0 4 ∧
+    validActions rwareWit.mask [1] = [0] ∧ validActions rwareWit.mask [4] = [4] := by decide
+
 /-- a 2×3 floor with two agents: agent 0 carries the requested shelf 0 and has the goal cell in front -/
 def rwareWit2 : State :=
   { shelfGrid := [[1, 0, 0], [0, 0, 2]], agentGrid := [[1, 0, 0], [2, 0, 0]],
@@ -64,7 +80,7 @@ end Props.C04
 namespace Props.C05
 /-- a masked-out action (= no-op) never moves or turns the agent and never touches the floor
 channels or the shelf table; its only possible effect is to clear the agent's `is_carrying` -/
-theorem rware_illegal_is_noop_partial (hw : List (List Bool)) (w : World) (i : Nat) :
+theorem rware_noop_effect_partial (hw : List (List Bool)) (w : World) (i : Nat) :
     (updateAgent hw w 0 i).shelfGrid = w.shelfGrid ∧ (updateAgent hw w 0 i).agentGrid = w.agentGrid ∧
     (updateAgent hw w 0 i).shelves = w.shelves ∧
     ((updateAgent hw w 0 i).agents = w.agents ∨
@@ -79,10 +95,12 @@ theorem rware_illegal_drops_shelf_witness :
     ((step Props.C04.rwareWitCfg Props.C04.rwareWit [1] []).1.agents.map (·.carrying)) = [false] ∧
     (step Props.C04.rwareWitCfg Props.C04.rwareWit [1] []).2.stepType = .mid := by decide
 
-/-- C05 (strengthening of `rware_illegal_is_noop_partial`, all worlds): the no-op played for agent `i`
+/-- C05 (strengthening of `rware_noop_effect_partial`, all worlds; about the NO-OP `updateAgent … 0 i` — that an
+illegal action is played as the no-op is `Props.C04.rware_step_agrees` / `rware_masked_step_agent` below): the
+no-op played for agent `i`
 leaves both floor channels, the shelf table and every other agent untouched; agent `i` keeps cell and
 direction, and its flag becomes exactly `is_carrying && on_highway(cell)` -/
-theorem rware_illegal_is_noop (hw : List (List Bool)) (w : World) (i : Nat) (ag : Agent)
+theorem rware_noop_agent (hw : List (List Bool)) (w : World) (i : Nat) (ag : Agent)
     (hi : w.agents[i]? = some ag) :
     (updateAgent hw w 0 i).shelfGrid = w.shelfGrid ∧ (updateAgent hw w 0 i).agentGrid = w.agentGrid ∧
     (updateAgent hw w 0 i).shelves = w.shelves ∧
@@ -307,9 +325,6 @@ theorem rware_step_shelves_consistent (cfg : Cfg) (s : State) (a d : List Int) (
   have d2 := RobotWarehouse.shaped_dims h2.shH h2.hR
   exact ⟨hp.2.2.2.1, fun c hcm => (hp.2.2.2.2.1 c hcm).2, d2.1.symm.trans d1.1, d2.2.symm.trans d1.2⟩
 
-/-- the spawn certificate evaluated by the driver on every reset state contains `Consistent` -/
-theorem rware_spawn_ok_consistent (cfg : Cfg) (s : State) (h : SpawnOK cfg s) : Consistent cfg s := h.1
-
 /-- C07 (reset): the state `RandomGenerator.__call__` builds (`genState`: agents with `is_carrying = 0`,
 `is_requested = zeros.at[queue].set(1)`, both channels by `place_entities_on_grid` from a zero grid, mask
 computed, step count 0) from sampled values satisfying the generator certificate — agent cells inside the
@@ -327,15 +342,129 @@ theorem rware_reset_consistent (cfg : Cfg) (R C : Nat) (hR : 0 < R) (hC : 0 < C)
   RobotWarehouse.gen_consistent cfg hR hC hH agentCells dirs shelfCells queue hlen haIn haNd hdir hsIn hsNd hqNd hqR
 
 /-- the hypotheses are satisfiable: a 2×3 floor, two agents, two shelves, one request -/
+example : (0 < 2 ∧ 0 < 3) ∧ Jx.Grid.shaped Props.C04.rwareWit2Cfg.highways 2 3 = true ∧
+    ([(0, 0), (1, 0)] : List (Int × Int)).length ≤ ([1, 0] : List Int).length ∧
+    (∀ c ∈ ([(0, 0), (1, 0)] : List (Int × Int)), inGrid 2 3 c.1 c.2) ∧ ([(0, 0), (1, 0)] : List (Int × Int)).Nodup ∧
+    (∀ d ∈ ([1, 0] : List Int), 0 ≤ d ∧ d < 4) ∧
+    (∀ c ∈ ([(0, 0), (1, 2)] : List (Int × Int)), inGrid 2 3 c.1 c.2) ∧ ([(0, 0), (1, 2)] : List (Int × Int)).Nodup ∧
+    ([0] : List Int).Nodup ∧ (∀ q ∈ ([0] : List Int), 0 ≤ q ∧ q < (([(0, 0), (1, 2)] : List (Int × Int)).length : Int)) := by
+  decide
 example : genState 2 3 [(0, 0), (1, 0)] [1, 0] [(0, 0), (1, 2)] [0] =
     { Props.C04.rwareWit2 with agents := [⟨0, 0, 1, false⟩, ⟨1, 0, 0, false⟩] } := by decide
 end Props.C07
+
+namespace Props.C05
+/-- C05 ("an illegal or masked action ALONE never ends the episode"): from a consistent state, when agent `i`
+submits an action that is illegal by the rules, the step is LAST exactly when the same joint action with the
+NO-OP in place of the illegal action leads to a collision (caused by the other agents' moves), or the time limit
+is reached; in particular, without such a collision and before the limit the step is MID -/
+theorem rware_illegal_alone_never_last (cfg : Cfg) (s : State) (hc : Consistent cfg s) (actions draws : List Int)
+    (i a : Nat) (hi : i < s.agents.length) (ha : actions[i]? = some (a : Int)) (ha5 : a < 5)
+    (hill : ¬ legal s i a) :
+    ((step cfg s actions draws).2.stepType = .last ↔
+      (¬ Props.C07.rwareNoCollision cfg s (actions.set i 0) ∨ s.stepCount + 1 ≥ cfg.timeLimit)) ∧
+    (Props.C07.rwareNoCollision cfg s (actions.set i 0) → s.stepCount + 1 < cfg.timeLimit →
+      (step cfg s actions draws).2.stepType = .mid) := by
+  rw [RobotWarehouse.step_illegal_eq_noop hc actions draws hi ha ha5 hill]
+  exact ⟨RobotWarehouse.last_iff cfg s _ draws, fun h1 h2 => (RobotWarehouse.mid_iff cfg s _ draws).2 ⟨h1, h2⟩⟩
+
+/-- the same for an action masked out by the cached mask, on ANY state (no consistency needed, any integer) -/
+theorem rware_masked_alone_never_last (cfg : Cfg) (s : State) (actions draws : List Int) (i : Nat) (a : Int)
+    (row : List Bool) (ha : actions[i]? = some a) (hrow : s.mask[i]? = some row)
+    (hm : Jx.getWC row false a = false) :
+    step cfg s actions draws = step cfg s (actions.set i 0) draws ∧
+    ((step cfg s actions draws).2.stepType = .last ↔
+      (¬ Props.C07.rwareNoCollision cfg s (actions.set i 0) ∨ s.stepCount + 1 ≥ cfg.timeLimit)) := by
+  have h := RobotWarehouse.step_masked_eq_noop cfg s actions draws hrow ha hm
+  refine ⟨h, ?_⟩
+  rw [h]
+  exact RobotWarehouse.last_iff cfg s _ draws
+
+/-- on the witness: the illegal FORWARD of the only agent is a MID step -/
+example : Consistent Props.C04.rwareWitCfg Props.C04.rwareWit ∧ ¬ legal Props.C04.rwareWit 0 1 ∧
+    Props.C07.rwareNoCollision Props.C04.rwareWitCfg Props.C04.rwareWit ([1].set 0 0) ∧
+    Props.C04.rwareWit.stepCount + 1 < Props.C04.rwareWitCfg.timeLimit := by decide
+end Props.C05
 
 namespace Props.C11
 theorem rware_time_limit (cfg : Cfg) (s : State) (a d : List Int) :
     (step cfg s a d).1.stepCount = s.stepCount + 1 ∧
     (s.stepCount + 1 ≥ cfg.timeLimit → (step cfg s a d).2.stepType = .last) :=
   RobotWarehouse.time_limit cfg s a d
+
+/-- C11 / C05 (both directions, ALL states, joint actions and draws): a step is LAST exactly when `is_collision`
+reports a collision after the moves or the incremented step count reaches the time limit — there is no other
+cause of termination (in particular not an illegal or masked action, not a delivery) -/
+theorem rware_last_iff (cfg : Cfg) (s : State) (a d : List Int) :
+    (step cfg s a d).2.stepType = .last ↔
+      (¬ Props.C07.rwareNoCollision cfg s a ∨ s.stepCount + 1 ≥ cfg.timeLimit) :=
+  RobotWarehouse.last_iff cfg s a d
+
+/-- … and MID exactly in the complementary case (`step` never emits FIRST) -/
+theorem rware_mid_iff (cfg : Cfg) (s : State) (a d : List Int) :
+    (step cfg s a d).2.stepType = .mid ↔
+      (Props.C07.rwareNoCollision cfg s a ∧ s.stepCount + 1 < cfg.timeLimit) :=
+  RobotWarehouse.mid_iff cfg s a d
+
+/-! #### episode level: `run cfg s ps` iterates the L1 `step` over the (joint action, draw) pairs `ps`;
+`stateAt cfg s ps k` is the state in which step number `k + 1` is taken -/
+
+/-- C11 (any start state, any play): step number `k + 1` of the play brings the counter to `step_count + k + 1` and is
+LAST exactly when a collision is reported in it or that count reaches the time limit -/
+theorem rware_run_step (cfg : Cfg) (s : State) (ps : List (List Int × List Int)) (k : Nat)
+    (p : List Int × List Int) (r : State × TimeStep Obs) (hp : ps[k]? = some p)
+    (hr : (run cfg s ps)[k]? = some r) :
+    r.1.stepCount = s.stepCount + (k : Int) + 1 ∧
+    (r.2.stepType = .last ↔
+      (¬ Props.C07.rwareNoCollision cfg (stateAt cfg s ps k) p.1 ∨ s.stepCount + (k : Int) + 1 ≥ cfg.timeLimit)) :=
+  RobotWarehouse.run_step cfg s ps k p r hp hr
+
+/-- index (step number − 1) of the first LAST timestep of a run -/
+def rwareFirstLast (l : List (State × TimeStep Obs)) : Option Nat := RobotWarehouse.firstLast l
+
+/-- C11, "in any case there is a LAST at or before step `time_limit`": from a state with step count 0 (a reset
+state), every play of at least `time_limit ≥ 1` steps — any joint actions, any draws, collisions or not — has a first
+LAST timestep, and its step number is at most `time_limit` -/
+theorem rware_episode_last_by_limit (cfg : Cfg) (s : State) (ps : List (List Int × List Int)) (h0 : s.stepCount = 0)
+    (T : Nat) (hT : cfg.timeLimit = (T : Int)) (hpos : 0 < T) (hlen : T ≤ ps.length) :
+    ∃ k, rwareFirstLast (run cfg s ps) = some k ∧ k + 1 ≤ T :=
+  RobotWarehouse.episode_last_by_limit cfg s ps h0 T hT hpos hlen
+
+/-- C11, "if no other cause of termination occurs, the first LAST timestep is exactly at step `time_limit`": from a
+state with step count 0, in a play in which no step reports a collision (the only other cause: `rware_last_iff`),
+step number `k + 1` is LAST iff `time_limit ≤ k + 1` — every earlier step is not LAST —, and for a play of at least
+`time_limit ≥ 1` steps the first LAST timestep is step number `time_limit` exactly -/
+theorem rware_episode_first_last (cfg : Cfg) (s : State) (ps : List (List Int × List Int)) (h0 : s.stepCount = 0)
+    (hcol : ∀ k p, ps[k]? = some p → Props.C07.rwareNoCollision cfg (stateAt cfg s ps k) p.1) :
+    (∀ (k : Nat) (r : State × TimeStep Obs), (run cfg s ps)[k]? = some r →
+      (r.2.stepType = .last ↔ cfg.timeLimit ≤ (k : Int) + 1)) ∧
+    (∀ T : Nat, cfg.timeLimit = (T : Int) → 0 < T → T ≤ ps.length →
+      rwareFirstLast (run cfg s ps) = some (T - 1)) :=
+  RobotWarehouse.episode_first_last cfg s ps h0 hcol
+
+/-- … in particular from EVERY generated reset state (`generate cfg d`, any sampled values `d`: its step count is 0):
+a play of at least `time_limit ≥ 1` steps has its first LAST at or before step `time_limit` -/
+theorem rware_generated_episode_last_by_limit (cfg : Cfg) (d : SpawnDraw) (ps : List (List Int × List Int))
+    (T : Nat) (hT : cfg.timeLimit = (T : Int)) (hpos : 0 < T) (hlen : T ≤ ps.length) :
+    ∃ k, rwareFirstLast (run cfg (generate cfg d) ps) = some k ∧ k + 1 ≤ T :=
+  RobotWarehouse.episode_last_by_limit cfg (generate cfg d) ps rfl T hT hpos hlen
+
+/-- the hypotheses are satisfiable: with `time_limit = 2` the two-step delivery play of the witness has no collision
+and its first LAST timestep is step number 2; the play in which both agents of `rwareCollWit`-like position collide
+ends earlier (see `Props.C08.rware_collision_step_reward_witness`: LAST at step 1 of 10) -/
+example : Props.C04.rwareWit2.stepCount = 0 ∧
+    (∀ k p, ([([1, 2], [1]), ([2, 1], [0])] : List (List Int × List Int))[k]? = some p →
+      k < 2) ∧
+    Props.C07.rwareNoCollision { Props.C04.rwareWit2Cfg with timeLimit := 2 } Props.C04.rwareWit2 [1, 2] ∧
+    Props.C07.rwareNoCollision { Props.C04.rwareWit2Cfg with timeLimit := 2 }
+      (stateAt { Props.C04.rwareWit2Cfg with timeLimit := 2 } Props.C04.rwareWit2 [([1, 2], [1]), ([2, 1], [0])] 1) [2, 1] ∧
+    rwareFirstLast (run { Props.C04.rwareWit2Cfg with timeLimit := 2 } Props.C04.rwareWit2
+      [([1, 2], [1]), ([2, 1], [0])]) = some 1 := by
+  refine ⟨by decide, ?_, by decide, by decide, by decide⟩
+  intro k p h
+  rcases Nat.lt_or_ge k 2 with h' | h'
+  · exact h'
+  · rw [List.getElem?_eq_none (by simpa using h')] at h; cases h
 end Props.C11
 
 namespace Props.C12
@@ -370,24 +499,22 @@ theorem rware_reset_obs_faithful (cfg : Cfg) (s : State) (hc : Consistent cfg s)
     RobotWarehouse.mask_eq_legalMask hc]
   rfl
 
-/-- step: the whole observation emitted by a non-LAST step from a consistent state (any joint action, any
-draw in the support) is the documented observation of the successor state.  (On a LAST step caused by
-a collision this is false: known finding RW2.) -/
+/-- step: the whole observation emitted by EVERY step without a collision from a consistent state (any joint
+action, any draw in the support) — the LAST step of an episode that ends by the time limit included — is the
+documented observation of the successor state.  (On a LAST step caused by a collision this is false: known
+finding RW2.) -/
 theorem rware_step_obs_faithful (cfg : Cfg) (s : State) (a d : List Int) (hc : Consistent cfg s)
-    (hv : Props.C07.rwareValidDraw cfg s a d) (hn : (step cfg s a d).2.stepType ≠ .last) :
-    (step cfg s a d).2.obs = observe cfg (step cfg s a d).1 := by
-  have hc' := RobotWarehouse.step_consistent hc a d hv hn
-  have h := RobotWarehouse.obs_copied cfg s a d
-  have h1 := RobotWarehouse.obs_faithful hc'
-  have h2 := RobotWarehouse.mask_eq_legalMask hc'
-  generalize (step cfg s a d).2.obs = o at h
-  generalize (step cfg s a d).1 = s' at h h1 h2
-  obtain ⟨v, m, c⟩ := o
-  obtain ⟨e1, e2, e3, e4⟩ := h
-  simp only [] at e1 e2 e4
-  unfold observe
-  rw [e1, e2, e4, e3, h1, h2]
-  rfl
+    (hv : Props.C07.rwareValidDraw cfg s a d) (hcol : Props.C07.rwareNoCollision cfg s a) :
+    (step cfg s a d).2.obs = observe cfg (step cfg s a d).1 :=
+  RobotWarehouse.step_obs_faithful_nocoll hc a d hv hcol
+
+/-- the hypotheses are satisfiable by a time-limit terminal step: with `time_limit = 1` the delivery step of the
+witness is LAST, has no collision, and its observation is the documented one -/
+example : Consistent { Props.C04.rwareWit2Cfg with timeLimit := 1 } Props.C04.rwareWit2 ∧
+    Props.C07.rwareValidDraw { Props.C04.rwareWit2Cfg with timeLimit := 1 } Props.C04.rwareWit2 [1, 2] [1] ∧
+    Props.C07.rwareNoCollision { Props.C04.rwareWit2Cfg with timeLimit := 1 } Props.C04.rwareWit2 [1, 2] ∧
+    (step { Props.C04.rwareWit2Cfg with timeLimit := 1 } Props.C04.rwareWit2 [1, 2] [1]).2.stepType = .last := by
+  decide
 end Props.C12
 
 namespace Props.C01
@@ -430,9 +557,10 @@ theorem rware_step_reward_is_deliveries (cfg : Cfg) (s : State) (a d : List Int)
 
 
 /-- C08, one step, NO hypotheses (any state, any joint action, any draw; the step ended by a collision
-included): the reward is a single number, the count of goals that fire in the scan over the goals, hence a
-natural number not larger than the number of goals -/
-theorem rware_step_reward_fired (cfg : Cfg) (s : State) (a d : List Int) :
+included): the reward is a single number, the count of goals that fire in the L1 scan over the goals (`firedCount`
+counts the `goalFires` tests of `scanGoals` itself — an L1 quantity; the statement in terms of the RULES is
+`rware_step_reward_is_deliveries`), hence a natural number not larger than the number of goals -/
+theorem rware_step_reward_l1_count (cfg : Cfg) (s : State) (a d : List Int) :
     (step cfg s a d).2.reward = [((firedCount (afterMoves cfg s a).shelfGrid
       ⟨s.queue, (afterMoves cfg s a).shelves, 0⟩ cfg.goals d : Nat) : Rat)] ∧
     firedCount (afterMoves cfg s a).shelfGrid ⟨s.queue, (afterMoves cfg s a).shelves, 0⟩ cfg.goals d
@@ -516,4 +644,70 @@ theorem rware_reset_spawn_ok (cfg : Cfg) (R C : Nat) (hR : 0 < R) (hC : 0 < C)
     (hoff : ∀ c ∈ shelfCells, Jx.Grid.getWC cfg.highways true c.1 c.2 = false) :
     SpawnOK cfg (genState R C agentCells dirs shelfCells queue) :=
   RobotWarehouse.gen_spawnOK cfg hR hC hH agentCells dirs shelfCells queue hlen haIn haNd hdir hsIn hsNd hqNd hqR hoff
+
+/-- the hypotheses of `rware_reset_spawn_ok` are satisfiable (same instance as for `rware_reset_consistent`; the
+shelf cells `(0, 0)`, `(1, 2)` are the non-highway cells of the witness configuration) -/
+example : (∀ c ∈ ([(0, 0), (1, 2)] : List (Int × Int)), Jx.Grid.getWC Props.C04.rwareWit2Cfg.highways true c.1 c.2 = false) ∧
+    shelfCells Props.C04.rwareWit2Cfg.highways = [(0, 0), (0, 2), (1, 2)] := by decide
+
+/-- the draw `d` lies in the support of `spawn_random_entities` for `numAgents` agents and a request queue of
+`queueSize`: the agent cells are `numAgents` PAIRWISE DIFFERENT flat indices of the floor
+(`choice(..., replace=False)`), one direction in `0..3` per agent, the queue consists of `queueSize` pairwise
+different shelf ids (exactly the test the driver's `instance` op applies to every reset state) -/
+def rwareValidSpawn (cfg : Cfg) (numAgents queueSize : Nat) (d : SpawnDraw) : Prop :=
+  validSpawn numAgents queueSize cfg.highways d = true
+instance (cfg : Cfg) (na q : Nat) (d : SpawnDraw) : Decidable (rwareValidSpawn cfg na q d) := by
+  unfold rwareValidSpawn; infer_instance
+
+/-- C10 (ALL draws in the support, any floor): `generate cfg d` — `RandomGenerator.__call__` with the sampled
+values `d`: agents on the unravelled cells, shelves on the non-highway cells (`argwhere`), `is_requested` by
+scatter, both channels by `place_entities_on_grid`, mask computed, step count 0 — passes the spawn certificate
+`SpawnOK` (consistent: agents on pairwise different cells inside the floor, …; step count 0; nobody carries; no shelf
+on a highway) and has the advertised numbers of agents, requests and shelves.  The distinctness of the agent
+cells is DERIVED from the sampling without replacement (injectivity of `unravel_index`), not assumed. -/
+theorem rware_generate_spawn_ok (cfg : Cfg) (R C : Nat) (hR : 0 < R) (hC : 0 < C)
+    (hH : Jx.Grid.shaped cfg.highways R C = true) (numAgents queueSize : Nat) (d : SpawnDraw)
+    (hv : rwareValidSpawn cfg numAgents queueSize d) :
+    SpawnOK cfg (generate cfg d) ∧ (generate cfg d).agents.length = numAgents ∧
+    (generate cfg d).queue.length = queueSize ∧
+    (generate cfg d).shelves.length = (shelfCells cfg.highways).length :=
+  RobotWarehouse.generate_spawnOK cfg hR hC hH numAgents queueSize d hv
+
+/-- the hypotheses are satisfiable: two agents on the flat cells 0 and 3 of the 2×3 witness floor, one request -/
+example : rwareValidSpawn Props.C04.rwareWit2Cfg 2 1 ⟨[0, 3], [1, 0], [0]⟩ ∧
+    Jx.Grid.shaped Props.C04.rwareWit2Cfg.highways 2 3 = true ∧
+    (generate Props.C04.rwareWit2Cfg ⟨[0, 3], [1, 0], [0]⟩).agents = [⟨0, 0, 1, false⟩, ⟨1, 0, 0, false⟩] ∧
+    (generate Props.C04.rwareWit2Cfg ⟨[0, 3], [1, 0], [0]⟩).shelves = [⟨0, 0, 1⟩, ⟨0, 2, 0⟩, ⟨1, 2, 0⟩] := by decide
+
+/-- sampling WITH replacement would break it: the same flat cell twice is outside the support, and the state built
+from it is not consistent (the second agent overwrites the first on the agents channel) -/
+theorem rware_generate_replacement_witness :
+    ¬ rwareValidSpawn Props.C04.rwareWit2Cfg 2 1 ⟨[3, 3], [1, 0], [0]⟩ ∧
+    ¬ Consistent Props.C04.rwareWit2Cfg (generate Props.C04.rwareWit2Cfg ⟨[3, 3], [1, 0], [0]⟩) := by decide
+
+/-- C10, the floor `_make_warehouse` lays out (ALL `shelf_rows`, `shelf_columns ≥ 1`, `column_height`): the highway
+table is a `rows × cols` grid with `rows, cols > 0`, both goal cells lie inside it — on highway cells (the delivery
+row), so no shelf is ever spawned on a goal — which discharges the hypotheses `shaped` / `rwareGoalsInside` of the
+C07/C08/C10 theorems for every generated configuration -/
+theorem rware_layout_ok (l : Layout) (h : 1 ≤ l.shelfColumns) (timeLimit : Int) (sensorRange : Nat) :
+    Jx.Grid.shaped l.highways l.rows l.cols = true ∧ 0 < l.rows ∧ 0 < l.cols ∧
+    Props.C08.rwareGoalsInside ⟨timeLimit, sensorRange, l.highways, l.goals⟩ ∧
+    (∀ g ∈ l.goals, Jx.Grid.getWC l.highways false g.2 g.1 = true) :=
+  ⟨RobotWarehouse.layout_shaped l, (RobotWarehouse.layout_pos l).1, (RobotWarehouse.layout_pos l).2,
+   RobotWarehouse.layout_goals_inside l h timeLimit sensorRange, RobotWarehouse.layout_goals_on_highway l h⟩
+
+/-- C10 → C07/C11: every generated reset state (any layout, any draw in the support) is `Consistent` with step
+count 0, so the step / episode theorems (`rware_step_consistent_no_collision`, `rware_episode_first_last`, …)
+apply to it -/
+theorem rware_generated_reset (l : Layout) (timeLimit : Int) (sensorRange numAgents queueSize : Nat) (d : SpawnDraw)
+    (hv : rwareValidSpawn ⟨timeLimit, sensorRange, l.highways, l.goals⟩ numAgents queueSize d) :
+    Consistent ⟨timeLimit, sensorRange, l.highways, l.goals⟩ (generate ⟨timeLimit, sensorRange, l.highways, l.goals⟩ d) ∧
+    (generate ⟨timeLimit, sensorRange, l.highways, l.goals⟩ d).stepCount = 0 :=
+  ⟨(RobotWarehouse.generate_spawnOK _ (RobotWarehouse.layout_pos l).1 (RobotWarehouse.layout_pos l).2
+      (RobotWarehouse.layout_shaped l) numAgents queueSize d hv).1.1, rfl⟩
+
+/-- the smallest layout of the test catalogue (`shelf_rows = 2, shelf_columns = 1, column_height = 2`): 8 × 4 floor -/
+example : (Layout.mk 2 1 2).rows = 8 ∧ (Layout.mk 2 1 2).cols = 4 ∧ (Layout.mk 2 1 2).goals = [(1, 7), (2, 7)] ∧
+    (shelfCells (Layout.mk 2 1 2).highways) = [(1, 1), (1, 2), (2, 1), (2, 2)] ∧
+    rwareValidSpawn ⟨7, 1, (Layout.mk 2 1 2).highways, (Layout.mk 2 1 2).goals⟩ 2 1 ⟨[5, 30], [0, 3], [3]⟩ := by decide
 end Props.C10
